@@ -40,6 +40,7 @@ func TestC10(t *testing.T) {
 	mix[core.OpResRemove] = 2
 	mix[core.OpQuery] = 8
 	mix[core.OpReset] = 1
+	mix[core.OpLockedRegistration] = 2
 	mix["useRegistered"] = 30
 	runSimProp(t, &simProp{
 		ID: "C10",
@@ -63,7 +64,7 @@ func TestC10(t *testing.T) {
 				g.Mix[core.OpTypeLimit] = 1
 			}
 		},
-		Rule: "legal histories with injected illegal calls (35% of all ops) of every class the documentation declares illegal: removed / recycled entity in every single-entity API and read accessor, add-present, remove-absent, duplicate IDs, same ID added and removed, second relation component, relation call naming a missing or a non-relation component (incl. ID 0), target without WithRelation, dead relation target through every API, batch count <= 0, EntityAt(-1)/EntityAt(Count)/Step(0)/Step(-1) on plain, registered and batch-result queries, Set of a missing component, Assign/Builder.Add/Relations.Exchange without components, duplicate/missing resource, register a registered filter / unregister twice, one component type beyond the limit, NewWorld with two configs or a non-positive capacity increment; oracle: every such call panics; for calls addressing a single entity (and the cache/resource/registry/query calls) the world afterwards equals the unchanged model in every observable (entities, components, values, targets, resources, lock state, query results, structural invariants, and - through the hook - the entity pool, i.e. the future handles), and the history continues and keeps matching the model; non-trivial = >= 2 different illegal classes in one history with a legal mutating op between them",
+		Rule: "legal histories with injected illegal calls (35% of all ops) of every class the documentation declares illegal: removed / recycled entity in every single-entity API and read accessor, add-present, remove-absent, duplicate IDs, same ID added and removed, second relation component, relation call naming a missing or a non-relation component (incl. ID 0), target without WithRelation, dead relation target through every API, batch count <= 0, EntityAt(-1)/EntityAt(Count)/Step(0)/Step(-1) on plain, registered and batch-result queries, Set of a missing component, Assign/Builder.Add/Relations.Exchange without components, duplicate/missing resource, register a registered filter / unregister twice, one component type beyond the limit, a relation type refused in a locked world followed by relation calls on the next registered plain type, NewWorld with two configs or a non-positive capacity increment; oracle: every such call panics; for calls addressing a single entity (and the cache/resource/registry/query calls) the world afterwards equals the unchanged model in every observable (entities, components, values, targets, resources, lock state, query results, structural invariants, and - through the hook - the entity pool, i.e. the future handles), and the history continues and keeps matching the model; non-trivial = >= 2 different illegal classes in one history with a legal mutating op between them",
 		Observe: func(tr *tracker, op *core.Op) {
 			if op.Ill != "" {
 				tr.cs.Label("illegal: " + op.Ill)
